@@ -551,7 +551,7 @@ def opRS (kind t d eng seed : String) (toks : List String) : String :=
 
 `f:i` (factory), `k:i:lo:hi` (constructor with an index interval inside the container), `cc:i:j`, `ca:i:j`, `mc:i:j`, `ma:i:j`,
 `d:i:n` (n draws: `element@index`), `w:pos:x` (the program overwrites an element), `t:i:x` (writes through the
-reference a draw returned; mutable container only).  The final container is printed last. -/
+reference a draw returned; mutable container only), `g:n` (the program calls the generator itself).  The final container is printed last. -/
 
 structure CTok where
   acts : List (CAct Int)
@@ -572,12 +572,14 @@ def parseCTok (mutable : Bool) (size : Nat) (tok : String) : Option CTok :=
   | ["d", i, n] => do let i ← slot? 3 i; let n ← count? n; some ⟨List.replicate n (.draw i), "d"⟩
   | ["w", pos, x] => do let pos ← count? pos; let x ← elem? x; if pos < size then some ⟨[.write pos x], "w"⟩ else none
   | ["t", i, x] => do let i ← slot? 3 i; let x ← elem? x; if mutable then some ⟨[.drawWrite i x], "t"⟩ else none
+  | ["g", n] => do let n ← count? n; some ⟨List.replicate n .raw, "g"⟩
   | _ => none
 
 def showCEvs (name : String) (evs : List (CEv Int)) : String :=
   if name = "f" then "".intercalate (evs.map fun e => match e with | .made b => if b then " f=some" else " f=none" | _ => "")
   else if name = "d" then " d=" ++ joinOr (evs.filterMap fun e => match e with | .elem x i => some s!"{x}@{i}" | _ => none)
   else if name = "t" then "".intercalate (evs.map fun e => match e with | .elem _ i => s!" t={i}" | _ => "")
+  else if name = "g" then " g=" ++ joinOr (evs.filterMap fun e => match e with | .raw n => some (toString n) | _ => none)
   else ""
 
 def runCToks : List CTok → List Int → (Nat → Option (Basic ((Int × Int) × Nat))) → Nat → String → String
